@@ -264,13 +264,12 @@ Section MeshModel.
         (if negb (to_id =? 0) && negb (to_id =? n_id n) then
            t0 <- now_z B ;;
            send_lookup is_master_class FUEL to_id (115 * 1000000 + t0) 5
-         else nret (Some to_id)) ;;
+         else
+           (* `elif to_node == self._id`: only an ID that was not looked up can mean "myself" *)
+           n <- nget ;; nret (Some (if to_id =? n_id n then n_addr n else to_id))) ;;
       match target with
       | None => nret false
-      | Some tn =>
-        n <- nget ;;
-        let tn := if tn =? n_id n then n_addr n else tn in
-        mesh_write tn ty message fid
+      | Some tn => mesh_write tn ty message fid
       end.
 
   (* ---- master ---- *)
